@@ -33,6 +33,7 @@ type HTTPObs struct {
 
 // NetFault is a transport fault the caller's next request will meet.
 type NetFault struct {
+	Skip     int // let this many requests of the node pass before the loss fault hits
 	ReqLoss  bool
 	RespLoss bool
 	// CorruptResp, when set, rewrites the response body (C10).
@@ -101,7 +102,12 @@ func (n *Net) RoundTrip(req *http.Request) (*http.Response, error) {
 
 	fault := n.Faults[from]
 	if fault != nil && (fault.ReqLoss || fault.RespLoss) {
-		delete(n.Faults, from) // loss faults hit the next request; corruption waits for a response it can alter
+		if fault.Skip > 0 {
+			fault.Skip--
+			fault = nil
+		} else {
+			delete(n.Faults, from) // loss faults hit this request; corruption waits for a response it can alter
+		}
 	}
 	if fault != nil && fault.ReqLoss {
 		n.s.Stats["fault_net_req_loss"]++
